@@ -495,7 +495,7 @@ class InterpND(object):
         """
         if (self._xi is None) or (not np.array_equal(xi, self._xi)):
             # If inputs have changed since last computation, then re-interpolate.
-            self.interpolate(xi)
+            self.interpolate(xi, compute_derivative=True)
 
         return self._gradient().reshape(np.asarray(xi).shape)
 
